@@ -4,6 +4,7 @@ import TabulaModel.Lemmas.PdfName
 import TabulaModel.Lemmas.PdfStr
 import TabulaModel.Lemmas.PdfHex
 import TabulaModel.Lemmas.PdfReal
+import TabulaModel.Lemmas.PdfDepth
 namespace Tabula.Pdf
 open Tabula.A1 (atoi dec)
 /-
@@ -103,56 +104,76 @@ theorem skipSpace_idem (X : Str) : CS.skipSpace (CS.skipSpace X) = CS.skipSpace 
     exact skipSpace_stop c r h1 h2
 
 
-theorem po_num (f : Nat) (X : Str) (c : Nat) (r : Str) (h : CS.skipSpace X = c :: r)
+theorem po_num (f d : Nat) (X : Str) (c : Nat) (r : Str) (h : CS.skipSpace X = c :: r)
     (hc : c = 45 ∨ c = 43 ∨ c = 46 ∨ isDigit c = true) :
-    CS.parseOperand (f + 1) X = CS.parseNumber (c :: r) := by
+    CS.parseOperand (f + 1) d X = CS.parseNumber (c :: r) := by
   rw [CS.parseOperand, h]; simp only [hc, if_true]
 
-theorem po_str (f : Nat) (X : Str) (r v r' : Str) (h : CS.skipSpace X = 40 :: r)
+theorem po_str (f d : Nat) (X : Str) (r v r' : Str) (h : CS.skipSpace X = 40 :: r)
     (hs : CS.strLoop 1 r = some (v, r')) :
-    CS.parseOperand (f + 1) X = some (.str v, r') := by
+    CS.parseOperand (f + 1) d X = some (.str v, r') := by
   rw [CS.parseOperand, h]
   have : ¬ (40 = 45 ∨ 40 = 43 ∨ 40 = 46 ∨ isDigit 40 = true) := by decide
   simp only [this, if_false, if_true, hs]
 
-theorem po_hex (f : Nat) (X : Str) (r v r' : Str) (h : CS.skipSpace X = 60 :: r) (h1 : r ≠ [])
+theorem po_hex (f d : Nat) (X : Str) (r v r' : Str) (h : CS.skipSpace X = 60 :: r) (h1 : r ≠ [])
     (h2 : r.head? ≠ some 60) (hs : CS.hexLoop r = some (v, r')) :
-    CS.parseOperand (f + 1) X = some (.str v, r') := by
+    CS.parseOperand (f + 1) d X = some (.str v, r') := by
   rw [CS.parseOperand, h]
   have a : ¬ (60 = 45 ∨ 60 = 43 ∨ 60 = 46 ∨ isDigit 60 = true) := by decide
   have b : (60 : Nat) ≠ 40 := by decide
   simp only [a, b, if_false, h1, h2, ne_eq, not_false_eq_true, and_self, if_true, hs]
 
-theorem po_name (f : Nat) (X : Str) (r : Str) (h : CS.skipSpace X = 47 :: r) :
-    CS.parseOperand (f + 1) X = some (.name (CS.nameLoop r).1, (CS.nameLoop r).2) := by
+theorem po_name (f d : Nat) (X : Str) (r : Str) (h : CS.skipSpace X = 47 :: r) :
+    CS.parseOperand (f + 1) d X = some (.name (CS.nameLoop r).1, (CS.nameLoop r).2) := by
   rw [CS.parseOperand, h]
   have a : ¬ (47 = 45 ∨ 47 = 43 ∨ 47 = 46 ∨ isDigit 47 = true) := by decide
   have b : (47 : Nat) ≠ 40 := by decide
   have c : (47 : Nat) ≠ 60 := by decide
   simp only [a, b, c, if_false, false_and, if_true]
 
-theorem po_arr (f : Nat) (X : Str) (r : Str) (h : CS.skipSpace X = 91 :: r) :
-    CS.parseOperand (f + 1) X = CS.parseArray f r [] := by
+theorem po_arr (f d : Nat) (X : Str) (r : Str) (h : CS.skipSpace X = 91 :: r) (hd : d < maxNestingDepth) :
+    CS.parseOperand (f + 1) d X = CS.parseArray f (d + 1) r [] := by
   rw [CS.parseOperand, h]
   have a : ¬ (91 = 45 ∨ 91 = 43 ∨ 91 = 46 ∨ isDigit 91 = true) := by decide
   have b : (91 : Nat) ≠ 40 := by decide
   have c : (91 : Nat) ≠ 60 := by decide
-  have d : (91 : Nat) ≠ 47 := by decide
-  simp only [a, b, c, d, if_false, false_and, if_true]
+  have e : (91 : Nat) ≠ 47 := by decide
+  simp only [a, b, c, e, if_false, false_and, if_true, Nat.not_le.2 hd]
 
-theorem po_dict (f : Nat) (X : Str) (r : Str) (h : CS.skipSpace X = 60 :: 60 :: r) :
-    CS.parseOperand (f + 1) X = CS.parseDict f r [] := by
+theorem po_arr_deep (f d : Nat) (X : Str) (r : Str) (h : CS.skipSpace X = 91 :: r) (hd : maxNestingDepth ≤ d) :
+    CS.parseOperand (f + 1) d X = none := by
+  rw [CS.parseOperand, h]
+  have a : ¬ (91 = 45 ∨ 91 = 43 ∨ 91 = 46 ∨ isDigit 91 = true) := by decide
+  have b : (91 : Nat) ≠ 40 := by decide
+  have c : (91 : Nat) ≠ 60 := by decide
+  have e : (91 : Nat) ≠ 47 := by decide
+  simp only [a, b, c, e, if_false, false_and, if_true, hd]
+
+theorem po_dict (f d : Nat) (X : Str) (r : Str) (h : CS.skipSpace X = 60 :: 60 :: r) (hd : d < maxNestingDepth) :
+    CS.parseOperand (f + 1) d X = CS.parseDict f (d + 1) r [] := by
   rw [CS.parseOperand, h]
   have a : ¬ (60 = 45 ∨ 60 = 43 ∨ 60 = 46 ∨ isDigit 60 = true) := by decide
   have b : (60 : Nat) ≠ 40 := by decide
-  have d : (60 : Nat) ≠ 47 := by decide
+  have c : (60 : Nat) ≠ 47 := by decide
   have e : (60 : Nat) ≠ 91 := by decide
-  simp only [a, b, d, e, if_false, List.head?_cons, ne_eq, not_true_eq_false, and_false, true_and,
-    if_true, List.drop_succ_cons, List.drop_zero]
+  simp only [a, b, c, e, if_false, List.head?_cons, ne_eq, not_true_eq_false, and_false, true_and,
+    if_true, List.drop_succ_cons, List.drop_zero, Nat.not_le.2 hd]
 
-theorem po_kw (f : Nat) (X : Str) (c : Nat) (r : Str) (h : CS.skipSpace X = c :: r)
+theorem po_dict_deep (f d : Nat) (X : Str) (r : Str) (h : CS.skipSpace X = 60 :: 60 :: r)
+    (hd : maxNestingDepth ≤ d) :
+    CS.parseOperand (f + 1) d X = none := by
+  rw [CS.parseOperand, h]
+  have a : ¬ (60 = 45 ∨ 60 = 43 ∨ 60 = 46 ∨ isDigit 60 = true) := by decide
+  have b : (60 : Nat) ≠ 40 := by decide
+  have c : (60 : Nat) ≠ 47 := by decide
+  have e : (60 : Nat) ≠ 91 := by decide
+  simp only [a, b, c, e, if_false, List.head?_cons, ne_eq, not_true_eq_false, and_false, true_and,
+    if_true, hd]
+
+theorem po_kw (f d : Nat) (X : Str) (c : Nat) (r : Str) (h : CS.skipSpace X = c :: r)
     (hc : c = 116 ∨ c = 102 ∨ c = 110) :
-    CS.parseOperand (f + 1) X =
+    CS.parseOperand (f + 1) d X =
       (let t := CS.regularToken (c :: r)
         if t = kwTrue then some (.bool true, (c :: r).drop t.length)
         else if t = kwFalse then some (.bool false, (c :: r).drop t.length)
@@ -163,11 +184,11 @@ theorem po_kw (f : Nat) (X : Str) (c : Nat) (r : Str) (h : CS.skipSpace X = c ::
     rcases hc with rfl | rfl | rfl <;> decide
   have b : c ≠ 40 := by omega
   have b' : c ≠ 60 := by omega
-  have d : c ≠ 47 := by omega
+  have d' : c ≠ 47 := by omega
   have e : c ≠ 91 := by omega
-  simp only [a, b, b', d, e, hc, if_false, false_and, if_true]
+  simp only [a, b, b', d', e, hc, if_false, false_and, if_true]
 
-theorem po_skip (f : Nat) (X : Str) : CS.parseOperand f (CS.skipSpace X) = CS.parseOperand f X := by
+theorem po_skip (f d : Nat) (X : Str) : CS.parseOperand f d (CS.skipSpace X) = CS.parseOperand f d X := by
   cases f with
   | zero => simp only [CS.parseOperand]
   | succ f => rw [CS.parseOperand, CS.parseOperand, skipSpace_idem]
@@ -403,32 +424,51 @@ theorem skip_render (pre : Sep) (hp : SepOk pre) (c : Nat) (r : Str) (h1 : isWs 
     CS.skipSpace (renderSep pre ++ (c :: r)) = c :: r := by
   rw [skipSpace_sep pre hp, skipSpace_stop c r h1 h2]
 
-theorem pa_close (f : Nat) (close : Sep) (hc : SepOk close) (rest : Str) (acc : List Obj) :
-    CS.parseArray (f + 1) (renderSep close ++ 93 :: rest) acc = some (.arr acc, rest) := by
+theorem pa_close (f d : Nat) (close : Sep) (hc : SepOk close) (rest : Str) (acc : List Obj) :
+    CS.parseArray (f + 1) d (renderSep close ++ 93 :: rest) acc = some (.arr acc, rest) := by
   rw [CS.parseArray, skip_render close hc 93 rest (by decide) (by decide)]
   have : renderSep close ++ 93 :: rest ≠ [] := by simp
   simp only [this, if_false, if_true]
 
-theorem pa_item (f : Nat) (inp : Str) (acc : List Obj) (c : Nat) (r : Str) (o : Obj) (r' : Str)
-    (h : CS.skipSpace inp = c :: r) (hc : c ≠ 93) (hp : CS.parseOperand f inp = some (o, r')) :
-    CS.parseArray (f + 1) inp acc = CS.parseArray f r' (acc ++ [o]) := by
+theorem pa_item (f d : Nat) (inp : Str) (acc : List Obj) (c : Nat) (r : Str) (o : Obj) (r' : Str)
+    (h : CS.skipSpace inp = c :: r) (hc : c ≠ 93) (hp : CS.parseOperand f d inp = some (o, r')) :
+    CS.parseArray (f + 1) d inp acc = CS.parseArray f d r' (acc ++ [o]) := by
   have hne : inp ≠ [] := by
     intro e; rw [e, skipSpace_nil] at h; cases h
-  have hp' : CS.parseOperand f (c :: r) = some (o, r') := by rw [← h, po_skip, hp]
+  have hp' : CS.parseOperand f d (c :: r) = some (o, r') := by rw [← h, po_skip, hp]
   rw [CS.parseArray, h]
   simp only [hne, hc, if_false, hp']
 
-theorem pd_close (f : Nat) (close : Sep) (hc : SepOk close) (rest : Str) (acc : List (Str × Obj)) :
-    CS.parseDict (f + 1) (renderSep close ++ 62 :: 62 :: rest) acc = some (.dict acc, rest) := by
+theorem pa_item_err (f d : Nat) (inp : Str) (acc : List Obj) (c : Nat) (r : Str)
+    (h : CS.skipSpace inp = c :: r) (hc : c ≠ 93) (hp : CS.parseOperand f d inp = none) :
+    CS.parseArray (f + 1) d inp acc = none := by
+  have hne : inp ≠ [] := by
+    intro e; rw [e, skipSpace_nil] at h; cases h
+  have hp' : CS.parseOperand f d (c :: r) = none := by rw [← h, po_skip, hp]
+  rw [CS.parseArray, h]
+  simp only [hne, hc, if_false, hp']
+
+theorem pd_close (f d : Nat) (close : Sep) (hc : SepOk close) (rest : Str) (acc : List (Str × Obj)) :
+    CS.parseDict (f + 1) d (renderSep close ++ 62 :: 62 :: rest) acc = some (.dict acc, rest) := by
   rw [CS.parseDict, skip_render close hc 62 (62 :: rest) (by decide) (by decide)]
   have : renderSep close ++ 62 :: 62 :: rest ≠ [] := by simp
   simp only [this, if_false, List.head?_cons, and_self, if_true, List.drop_succ_cons, List.drop_zero]
 
-theorem pd_item (f : Nat) (pre : Sep) (hpre : SepOk pre) (ps : List NPiece) (hps : ∀ p ∈ ps, p.Ok)
+theorem pd_item (f d : Nat) (pre : Sep) (hpre : SepOk pre) (ps : List NPiece) (hps : ∀ p ∈ ps, p.Ok)
     (Y : Str) (hY : Terminated Y) (acc : List (Str × Obj)) (o : Obj) (r' : Str)
-    (hp : CS.parseOperand f Y = some (o, r')) :
-    CS.parseDict (f + 1) (renderSep pre ++ 47 :: (renderName ps ++ Y)) acc =
-      CS.parseDict f r' (dictSet acc (ps.map NPiece.byte) o) := by
+    (hp : CS.parseOperand f d Y = some (o, r')) :
+    CS.parseDict (f + 1) d (renderSep pre ++ 47 :: (renderName ps ++ Y)) acc =
+      CS.parseDict f d r' (dictSet acc (ps.map NPiece.byte) o) := by
+  rw [CS.parseDict, skip_render pre hpre 47 _ (by decide) (by decide)]
+  have hne : renderSep pre ++ 47 :: (renderName ps ++ Y) ≠ [] := by simp
+  have h1 : ¬ ((47 : Nat) = 62 ∧ (renderName ps ++ Y).head? = some 62) := by
+    intro h; exact absurd h.1 (by decide)
+  simp only [hne, h1, if_false, ne_eq, not_true_eq_false, cs_nameLoop_roundtrip ps Y hps hY, hp]
+
+theorem pd_item_err (f d : Nat) (pre : Sep) (hpre : SepOk pre) (ps : List NPiece) (hps : ∀ p ∈ ps, p.Ok)
+    (Y : Str) (hY : Terminated Y) (acc : List (Str × Obj))
+    (hp : CS.parseOperand f d Y = none) :
+    CS.parseDict (f + 1) d (renderSep pre ++ 47 :: (renderName ps ++ Y)) acc = none := by
   rw [CS.parseDict, skip_render pre hpre 47 _ (by decide) (by decide)]
   have hne : renderSep pre ++ 47 :: (renderName ps ++ Y) ≠ [] := by simp
   have h1 : ¬ ((47 : Nat) = 62 ∧ (renderName ps ++ Y).head? = some 62) := by
@@ -676,10 +716,10 @@ theorem head_cases (so : SObj) (need : Bool) (hv : so.Valid need) (hnr : so.noRe
     exact delim pre 60 _ hv.1 (by decide) (by decide) (by decide) (by decide) (by decide) (by decide)
   | ref pre n g s1 s2 => simp [SObj.noRef] at hnr
 
-theorem kw_operand (f : Nat) (pre : Sep) (hp : SepOk pre) (kw : Str) (c : Nat) (t : Str) (rest : Str)
+theorem kw_operand (f d : Nat) (pre : Sep) (hp : SepOk pre) (kw : Str) (c : Nat) (t : Str) (rest : Str)
     (hkw : kw = c :: t) (hc : c = 116 ∨ c = 102 ∨ c = 110)
     (hreg : ∀ x ∈ kw, (isWs x || isDelim x) = false) (hT : Terminated rest) :
-    CS.parseOperand (f + 1) (renderSep pre ++ (kw ++ rest)) =
+    CS.parseOperand (f + 1) d (renderSep pre ++ (kw ++ rest)) =
       (if kw = kwTrue then some (.bool true, rest)
         else if kw = kwFalse then some (.bool false, rest)
         else if kw = kwNull then some (.null, rest)
@@ -690,15 +730,16 @@ theorem kw_operand (f : Nat) (pre : Sep) (hp : SepOk pre) (kw : Str) (c : Nat) (
   have h37 : c ≠ 37 := by omega
   have hs : CS.skipSpace (renderSep pre ++ (kw ++ rest)) = c :: (t ++ rest) := by
     rw [hkw, List.cons_append]; exact skip_render pre hp c _ hws h37
-  rw [po_kw f _ c _ hs hc]
+  rw [po_kw f d _ c _ hs hc]
   have e : c :: (t ++ rest) = kw ++ rest := by rw [hkw]; rfl
   simp only [e, regularToken_append kw rest hreg hT, drop_append_len]
 
 mutual
-theorem op_rt (so : SObj) (need : Bool) (rest : Str) (f : Nat)
+theorem op_rt (so : SObj) (need : Bool) (rest : Str) (f d : Nat)
     (hv : so.Valid need) (hnr : so.noRef = true) (hf : so.size ≤ f)
+    (hd : d + so.depth ≤ maxNestingDepth)
     (hrest : so.endsRegular = true → Terminated rest) :
-    CS.parseOperand f (so.render ++ rest) = some (so.value, rest) := by
+    CS.parseOperand f d (so.render ++ rest) = some (so.value, rest) := by
   obtain ⟨f, rfl⟩ : ∃ f', f = f' + 1 := by
     cases f with
     | zero => cases so <;> simp [SObj.size] at hf
@@ -707,16 +748,16 @@ theorem op_rt (so : SObj) (need : Bool) (rest : Str) (f : Nat)
   | .null pre =>
     simp only [SObj.Valid] at hv
     simp only [SObj.render, List.append_assoc, SObj.value]
-    rw [kw_operand f pre hv.1 kwNull 110 _ rest rfl (by decide) kwNull_reg (hrest rfl)]
+    rw [kw_operand f d pre hv.1 kwNull 110 _ rest rfl (by decide) kwNull_reg (hrest rfl)]
     rfl
   | .bool pre b =>
     simp only [SObj.Valid] at hv
     simp only [SObj.render, List.append_assoc, SObj.value]
     cases b with
     | true =>
-      exact (kw_operand f pre hv.1 kwTrue 116 _ rest rfl (by decide) kwTrue_reg (hrest rfl)).trans rfl
+      exact (kw_operand f d pre hv.1 kwTrue 116 _ rest rfl (by decide) kwTrue_reg (hrest rfl)).trans rfl
     | false =>
-      exact (kw_operand f pre hv.1 kwFalse 102 _ rest rfl (by decide) kwFalse_reg (hrest rfl)).trans rfl
+      exact (kw_operand f d pre hv.1 kwFalse 102 _ rest rfl (by decide) kwFalse_reg (hrest rfl)).trans rfl
   | .int pre plus z i =>
     simp only [SObj.Valid] at hv
     obtain ⟨c, t, hc, hcc⟩ := printInt_head plus z i
@@ -724,7 +765,7 @@ theorem op_rt (so : SObj) (need : Bool) (rest : Str) (f : Nat)
     have hs : CS.skipSpace (renderSep pre ++ (printInt plus z i ++ rest)) = c :: (t ++ rest) := by
       rw [hc, List.cons_append]; exact skip_render pre hv.1 c _ a1 a2
     simp only [SObj.render, List.append_assoc, SObj.value]
-    rw [po_num f _ c _ hs (by rcases hcc with h | h | h <;> simp [h])]
+    rw [po_num f d _ c _ hs (by rcases hcc with h | h | h <;> simp [h])]
     have e : c :: (t ++ rest) = printInt plus z i ++ rest := by rw [hc]; rfl
     rw [e, parseNumber_int plus z i rest hv.2.2.1 hv.2.2.2 (hrest rfl)]
   | .real pre r =>
@@ -734,21 +775,21 @@ theorem op_rt (so : SObj) (need : Bool) (rest : Str) (f : Nat)
     have hs : CS.skipSpace (renderSep pre ++ (r.render ++ rest)) = c :: (t ++ rest) := by
       rw [hc, List.cons_append]; exact skip_render pre hv.1 c _ a1 a2
     simp only [SObj.render, List.append_assoc, SObj.value]
-    rw [po_num f _ c _ hs hcc]
+    rw [po_num f d _ c _ hs hcc]
     have e : c :: (t ++ rest) = r.render ++ rest := by rw [hc]; rfl
     rw [e, cs_parseNumber_real r rest hv.2.2 (hrest rfl)]
   | .lit pre ps =>
     simp only [SObj.Valid] at hv
     simp only [SObj.render, renderStr, List.append_assoc, List.cons_append, SObj.value, List.nil_append]
     have hs := skip_render pre hv.1 40 (renderStrBody ps ++ 41 :: rest) (by decide) (by decide)
-    exact po_str f _ _ _ _ hs (by rw [cs_strLoop_eq]; exact litstr_roundtrip ps rest hv.2)
+    exact po_str f d _ _ _ _ hs (by rw [cs_strLoop_eq]; exact litstr_roundtrip ps rest hv.2)
   | .hex pre ps last w =>
     simp only [SObj.Valid] at hv
     simp only [SObj.render, renderHex, List.append_assoc, List.cons_append, SObj.value]
     have hs := skip_render pre hv.1 60 (renderHexBody ps last w ++ rest) (by decide) (by decide)
     have h60 := hexBody_ne60 ps last w hv.2.1 hv.2.2.1 hv.2.2.2
     have hne := hexBody_ne_nil ps last w
-    refine po_hex f _ _ _ _ hs ?_ ?_ (cs_hexstr_roundtrip ps last w rest hv.2.1 hv.2.2.1 hv.2.2.2)
+    refine po_hex f d _ _ _ _ hs ?_ ?_ (cs_hexstr_roundtrip ps last w rest hv.2.1 hv.2.2.1 hv.2.2.2)
     · simp [hne]
     · cases hb : renderHexBody ps last w with
       | nil => exact absurd hb hne
@@ -759,39 +800,44 @@ theorem op_rt (so : SObj) (need : Bool) (rest : Str) (f : Nat)
     simp only [SObj.Valid] at hv
     simp only [SObj.render, List.append_assoc, List.cons_append, SObj.value]
     have hs := skip_render pre hv.1 47 (renderName ps ++ rest) (by decide) (by decide)
-    rw [po_name f _ _ hs, cs_nameLoop_roundtrip ps rest hv.2 (hrest rfl)]
+    rw [po_name f d _ _ hs, cs_nameLoop_roundtrip ps rest hv.2 (hrest rfl)]
   | .arr pre items close =>
     simp only [SObj.Valid] at hv
     simp only [SObj.noRef] at hnr
     simp only [SObj.size] at hf
+    simp only [SObj.depth] at hd
     simp only [SObj.render, List.append_assoc, List.cons_append, SObj.value, List.nil_append]
     have hs := skip_render pre hv.1 91 (renderList items ++ (renderSep close ++ 93 :: rest)) (by decide) (by decide)
-    rw [po_arr f _ _ hs, arr_rt items false close rest f [] hv.2.2 hnr hv.2.1 (by omega)]
+    rw [po_arr f d _ _ hs (by omega),
+      arr_rt items false close rest f (d + 1) [] hv.2.2 hnr hv.2.1 (by omega) (by omega)]
     rfl
   | .dict pre kvs close =>
     simp only [SObj.Valid] at hv
     simp only [SObj.noRef] at hnr
     simp only [SObj.size] at hf
+    simp only [SObj.depth] at hd
     simp only [SObj.render, List.append_assoc, List.cons_append, SObj.value, List.nil_append]
     have hs := skip_render pre hv.1 60 (60 :: (renderList kvs ++ (renderSep close ++ 62 :: 62 :: rest)))
       (by decide) (by decide)
-    rw [po_dict f _ _ hs, dict_rt kvs close rest f [] hv.2.2.1 hnr hv.2.1 hv.2.2.2 (by simp) (by omega)]
+    rw [po_dict f d _ _ hs (by omega),
+      dict_rt kvs close rest f (d + 1) [] hv.2.2.1 hnr hv.2.1 hv.2.2.2 (by simp) (by omega) (by omega)]
     rfl
   | .ref pre n g s1 s2 => simp [SObj.noRef] at hnr
-theorem arr_rt (items : List SObj) (need : Bool) (close : Sep) (rest : Str) (f : Nat) (acc : List Obj)
+theorem arr_rt (items : List SObj) (need : Bool) (close : Sep) (rest : Str) (f d : Nat) (acc : List Obj)
     (hv : ValidList need items) (hnr : noRefList items = true) (hc : SepOk close)
-    (hf : sizeList items + 1 ≤ f) :
-    CS.parseArray f (renderList items ++ (renderSep close ++ 93 :: rest)) acc =
+    (hf : sizeList items + 1 ≤ f) (hd : d + sdepthList items ≤ maxNestingDepth) :
+    CS.parseArray f d (renderList items ++ (renderSep close ++ 93 :: rest)) acc =
       some (.arr (acc ++ valueList items), rest) := by
   obtain ⟨f, rfl⟩ : ∃ f', f = f' + 1 := ⟨f - 1, by omega⟩
   match items with
   | [] =>
     simp only [renderList, List.nil_append, valueList, List.append_nil]
-    exact pa_close f close hc rest acc
+    exact pa_close f d close hc rest acc
   | x :: xs =>
     simp only [ValidList] at hv
     simp only [noRefList, Bool.and_eq_true] at hnr
     simp only [sizeList] at hf
+    simp only [sdepthList] at hd
     simp only [renderList, List.append_assoc, valueList]
     have hT : Terminated (renderSep close ++ 93 :: rest) :=
       terminated_sep' close hc _ (terminated_cons 93 _ (by decide))
@@ -800,21 +846,21 @@ theorem arr_rt (items : List SObj) (need : Bool) (close : Sep) (rest : Str) (f :
       rw [he] at hv
       exact terminated_list xs hv.2 hnr.2 _ (fun _ => hT)
     obtain ⟨c, r, hs, h93, _⟩ := head_cases x need hv.1 hnr.1 _ hrest
-    have hx := op_rt x need _ f hv.1 hnr.1 (by omega) hrest
-    rw [pa_item f _ acc c r _ _ hs h93 hx,
-      arr_rt xs x.endsRegular close rest f (acc ++ [x.value]) hv.2 hnr.2 hc (by omega)]
+    have hx := op_rt x need _ f d hv.1 hnr.1 (by omega) (by omega) hrest
+    rw [pa_item f d _ acc c r _ _ hs h93 hx,
+      arr_rt xs x.endsRegular close rest f d (acc ++ [x.value]) hv.2 hnr.2 hc (by omega) (by omega)]
     simp
-theorem dict_rt (kvs : List SObj) (close : Sep) (rest : Str) (f : Nat) (acc : List (Str × Obj))
+theorem dict_rt (kvs : List SObj) (close : Sep) (rest : Str) (f d : Nat) (acc : List (Str × Obj))
     (hv : ValidKVs kvs) (hnr : noRefList kvs = true) (hc : SepOk close)
     (hnd : (keysOf kvs).Nodup) (hfr : ∀ k ∈ keysOf kvs, k ∉ acc.map Prod.fst)
-    (hf : sizeList kvs + 1 ≤ f) :
-    CS.parseDict f (renderList kvs ++ (renderSep close ++ 62 :: 62 :: rest)) acc =
+    (hf : sizeList kvs + 1 ≤ f) (hd : d + sdepthList kvs ≤ maxNestingDepth) :
+    CS.parseDict f d (renderList kvs ++ (renderSep close ++ 62 :: 62 :: rest)) acc =
       some (.dict (acc ++ valueKVs kvs), rest) := by
   obtain ⟨f, rfl⟩ : ∃ f', f = f' + 1 := ⟨f - 1, by omega⟩
   match kvs with
   | [] =>
     simp only [renderList, List.nil_append, valueKVs, List.append_nil]
-    exact pd_close f close hc rest acc
+    exact pd_close f d close hc rest acc
   | [_] => simp [ValidKVs] at hv
   | k :: v :: kvs' =>
     simp only [ValidKVs] at hv
@@ -822,6 +868,7 @@ theorem dict_rt (kvs : List SObj) (close : Sep) (rest : Str) (f : Nat) (acc : Li
     simp only [noRefList, Bool.and_eq_true] at hnr
     obtain ⟨_, hnrv, hnr'⟩ := hnr
     simp only [sizeList] at hf
+    simp only [sdepthList] at hd
     simp only [keysOf, List.nodup_cons] at hnd
     match k, hkn, hkv with
     | .name pre ps, _, hkv =>
@@ -842,9 +889,9 @@ theorem dict_rt (kvs : List SObj) (close : Sep) (rest : Str) (f : Nat) (acc : Li
           cases k2 <;> simp [SObj.isName] at hv' <;> rfl
       have hY : Terminated (v.render ++ (renderList kvs' ++ (renderSep close ++ 62 :: 62 :: rest))) :=
         terminated_render v true hvv hnrv _ (Or.inl rfl)
-      have hx := op_rt v true _ f hvv hnrv (by omega) (fun _ => hT')
-      rw [pd_item f pre hkv.1 ps hkv.2 _ hY acc _ _ hx, dictSet_fresh acc _ _ hfr.1,
-        dict_rt kvs' close rest f _ hv' hnr' hc hnd.2 ?_ (by omega)]
+      have hx := op_rt v true _ f d hvv hnrv (by omega) (by omega) (fun _ => hT')
+      rw [pd_item f d pre hkv.1 ps hkv.2 _ hY acc _ _ hx, dictSet_fresh acc _ _ hfr.1,
+        dict_rt kvs' close rest f d _ hv' hnr' hc hnd.2 ?_ (by omega) (by omega)]
       · simp
       · intro k' hk'
         simp only [List.map_append, List.map_cons, List.map_nil, List.mem_append, List.mem_singleton, not_or]
@@ -853,13 +900,145 @@ theorem dict_rt (kvs : List SObj) (close : Sep) (rest : Str) (f : Nat) (acc : Li
 end
 
 
+/-! ### beyond the nesting limit -/
+
+mutual
+theorem op_deep (so : SObj) (need : Bool) (rest : Str) (f d : Nat)
+    (hv : so.Valid need) (hnr : so.noRef = true) (hf : so.size ≤ f)
+    (hd : d ≤ maxNestingDepth) (hdeep : maxNestingDepth < d + so.depth)
+    (hrest : so.endsRegular = true → Terminated rest) :
+    CS.parseOperand f d (so.render ++ rest) = none := by
+  obtain ⟨f, rfl⟩ : ∃ f', f = f' + 1 := by
+    cases f with
+    | zero => cases so <;> simp [SObj.size] at hf
+    | succ f' => exact ⟨f', rfl⟩
+  match so with
+  | .null _ => simp only [SObj.depth] at hdeep; omega
+  | .bool _ _ => simp only [SObj.depth] at hdeep; omega
+  | .int _ _ _ _ => simp only [SObj.depth] at hdeep; omega
+  | .real _ _ => simp only [SObj.depth] at hdeep; omega
+  | .lit _ _ => simp only [SObj.depth] at hdeep; omega
+  | .hex _ _ _ _ => simp only [SObj.depth] at hdeep; omega
+  | .name _ _ => simp only [SObj.depth] at hdeep; omega
+  | .ref _ _ _ _ _ => simp only [SObj.depth] at hdeep; omega
+  | .arr pre items close =>
+    simp only [SObj.Valid] at hv
+    simp only [SObj.noRef] at hnr
+    simp only [SObj.size] at hf
+    simp only [SObj.depth] at hdeep
+    simp only [SObj.render, List.append_assoc, List.cons_append, List.nil_append]
+    have hs := skip_render pre hv.1 91 (renderList items ++ (renderSep close ++ 93 :: rest)) (by decide) (by decide)
+    by_cases hlim : maxNestingDepth ≤ d
+    · exact po_arr_deep f d _ _ hs hlim
+    · rw [po_arr f d _ _ hs (by omega)]
+      exact arr_deep items false close rest f (d + 1) [] hv.2.2 hnr hv.2.1 (by omega) (by omega) (by omega)
+  | .dict pre kvs close =>
+    simp only [SObj.Valid] at hv
+    simp only [SObj.noRef] at hnr
+    simp only [SObj.size] at hf
+    simp only [SObj.depth] at hdeep
+    simp only [SObj.render, List.append_assoc, List.cons_append, List.nil_append]
+    have hs := skip_render pre hv.1 60 (60 :: (renderList kvs ++ (renderSep close ++ 62 :: 62 :: rest)))
+      (by decide) (by decide)
+    by_cases hlim : maxNestingDepth ≤ d
+    · exact po_dict_deep f d _ _ hs hlim
+    · rw [po_dict f d _ _ hs (by omega)]
+      exact dict_deep kvs close rest f (d + 1) [] hv.2.2.1 hnr hv.2.1 hv.2.2.2 (by simp) (by omega) (by omega)
+        (by omega)
+theorem arr_deep (items : List SObj) (need : Bool) (close : Sep) (rest : Str) (f d : Nat) (acc : List Obj)
+    (hv : ValidList need items) (hnr : noRefList items = true) (hc : SepOk close)
+    (hf : sizeList items + 1 ≤ f) (hd : d ≤ maxNestingDepth)
+    (hdeep : maxNestingDepth < d + sdepthList items) :
+    CS.parseArray f d (renderList items ++ (renderSep close ++ 93 :: rest)) acc = none := by
+  obtain ⟨f, rfl⟩ : ∃ f', f = f' + 1 := ⟨f - 1, by omega⟩
+  match items with
+  | [] => simp only [sdepthList] at hdeep; omega
+  | x :: xs =>
+    simp only [ValidList] at hv
+    simp only [noRefList, Bool.and_eq_true] at hnr
+    simp only [sizeList] at hf
+    simp only [sdepthList] at hdeep
+    simp only [renderList, List.append_assoc]
+    have hT : Terminated (renderSep close ++ 93 :: rest) :=
+      terminated_sep' close hc _ (terminated_cons 93 _ (by decide))
+    have hrest : x.endsRegular = true → Terminated (renderList xs ++ (renderSep close ++ 93 :: rest)) := by
+      intro he
+      rw [he] at hv
+      exact terminated_list xs hv.2 hnr.2 _ (fun _ => hT)
+    obtain ⟨c, r, hs, h93, _⟩ := head_cases x need hv.1 hnr.1 _ hrest
+    by_cases hx : d + x.depth ≤ maxNestingDepth
+    · have hx' := op_rt x need _ f d hv.1 hnr.1 (by omega) hx hrest
+      rw [pa_item f d _ acc c r _ _ hs h93 hx']
+      exact arr_deep xs x.endsRegular close rest f d (acc ++ [x.value]) hv.2 hnr.2 hc (by omega) hd (by omega)
+    · have hx' := op_deep x need _ f d hv.1 hnr.1 (by omega) hd (by omega) hrest
+      exact pa_item_err f d _ acc c r hs h93 hx'
+theorem dict_deep (kvs : List SObj) (close : Sep) (rest : Str) (f d : Nat) (acc : List (Str × Obj))
+    (hv : ValidKVs kvs) (hnr : noRefList kvs = true) (hc : SepOk close)
+    (hnd : (keysOf kvs).Nodup) (hfr : ∀ k ∈ keysOf kvs, k ∉ acc.map Prod.fst)
+    (hf : sizeList kvs + 1 ≤ f) (hd : d ≤ maxNestingDepth)
+    (hdeep : maxNestingDepth < d + sdepthList kvs) :
+    CS.parseDict f d (renderList kvs ++ (renderSep close ++ 62 :: 62 :: rest)) acc = none := by
+  obtain ⟨f, rfl⟩ : ∃ f', f = f' + 1 := ⟨f - 1, by omega⟩
+  match kvs with
+  | [] => simp only [sdepthList] at hdeep; omega
+  | [_] => simp [ValidKVs] at hv
+  | k :: v :: kvs' =>
+    simp only [ValidKVs] at hv
+    obtain ⟨hkn, hkv, hvv, hv'⟩ := hv
+    simp only [noRefList, Bool.and_eq_true] at hnr
+    obtain ⟨_, hnrv, hnr'⟩ := hnr
+    simp only [sizeList] at hf
+    simp only [keysOf, List.nodup_cons] at hnd
+    match k, hkn, hkv with
+    | .name pre ps, _, hkv =>
+      simp only [SObj.Valid] at hkv
+      simp only [sdepthList, SObj.depth] at hdeep
+      simp only [keysOf, SObj.keyBytes, List.mem_cons, forall_eq_or_imp] at hfr hnd
+      simp only [renderList, SObj.render, List.append_assoc, List.cons_append]
+      have hT : Terminated (renderSep close ++ 62 :: 62 :: rest) :=
+        terminated_sep' close hc _ (terminated_cons 62 _ (by decide))
+      have hT' : Terminated (renderList kvs' ++ (renderSep close ++ 62 :: 62 :: rest)) := by
+        match kvs', hv', hnr' with
+        | [], _, _ => exact hT
+        | [_], hv', _ => simp [ValidKVs] at hv'
+        | k2 :: v2 :: r2, hv', hnr' =>
+          simp only [ValidKVs] at hv'
+          simp only [noRefList, Bool.and_eq_true] at hnr'
+          simp only [renderList, List.append_assoc]
+          refine terminated_render k2 false hv'.2.1 hnr'.1 _ (Or.inr ?_)
+          cases k2 <;> simp [SObj.isName] at hv' <;> rfl
+      have hY : Terminated (v.render ++ (renderList kvs' ++ (renderSep close ++ 62 :: 62 :: rest))) :=
+        terminated_render v true hvv hnrv _ (Or.inl rfl)
+      by_cases hx : d + v.depth ≤ maxNestingDepth
+      · have hx' := op_rt v true _ f d hvv hnrv (by omega) hx (fun _ => hT')
+        rw [pd_item f d pre hkv.1 ps hkv.2 _ hY acc _ _ hx', dictSet_fresh acc _ _ hfr.1]
+        refine dict_deep kvs' close rest f d _ hv' hnr' hc hnd.2 ?_ (by omega) hd (by omega)
+        intro k' hk'
+        simp only [List.map_append, List.map_cons, List.map_nil, List.mem_append, List.mem_singleton, not_or]
+        refine ⟨hfr.2 k' hk', ?_⟩
+        intro e; subst e; exact hnd.1 hk'
+      · have hx' := op_deep v true _ f d hvv hnrv (by omega) hd (by omega) (fun _ => hT')
+        exact pd_item_err f d pre hkv.1 ps hkv.2 _ hY acc hx'
+end
+
 /-! ### the program level -/
 
 theorem pl_operand (n fuel : Nat) (inp : Str) (stack : List Obj) (ops : List CS.Operation)
     (c : Nat) (r : Str) (o : Obj) (r' : Str) (hs : CS.skipSpace inp = c :: r)
-    (hb : opBranch c r = false) (hp : CS.parseOperand fuel inp = some (o, r')) :
+    (hb : opBranch c r = false) (hp : CS.parseOperand fuel 0 inp = some (o, r')) :
     CS.parseLoop (n + 1) fuel inp stack ops = CS.parseLoop n fuel r' (stack ++ [o]) ops := by
-  have hp' : CS.parseOperand fuel (c :: r) = some (o, r') := by rw [← hs, po_skip, hp]
+  have hp' : CS.parseOperand fuel 0 (c :: r) = some (o, r') := by rw [← hs, po_skip, hp]
+  have hb' : ¬ (((CS.isLetter c && !CS.isKeywordObject (CS.regularToken (c :: r))) || c = 39 || c = 34) = true) := by
+    have : ((CS.isLetter c && !CS.isKeywordObject (CS.regularToken (c :: r))) || c = 39 || c = 34) = opBranch c r := rfl
+    rw [this, hb]; simp
+  rw [CS.parseLoop, hs]
+  simp only [hb', hp', Bool.false_eq_true, if_false]
+
+theorem pl_operand_err (n fuel : Nat) (inp : Str) (stack : List Obj) (ops : List CS.Operation)
+    (c : Nat) (r : Str) (hs : CS.skipSpace inp = c :: r)
+    (hb : opBranch c r = false) (hp : CS.parseOperand fuel 0 inp = none) :
+    CS.parseLoop (n + 1) fuel inp stack ops = none := by
+  have hp' : CS.parseOperand fuel 0 (c :: r) = none := by rw [← hs, po_skip, hp]
   have hb' : ¬ (((CS.isLetter c && !CS.isKeywordObject (CS.regularToken (c :: r))) || c = 39 || c = 34) = true) := by
     have : ((CS.isLetter c && !CS.isKeywordObject (CS.regularToken (c :: r))) || c = 39 || c = 34) = opBranch c r := rfl
     rw [this, hb]; simp
@@ -935,7 +1114,8 @@ theorem pl_end (n fuel : Nat) (trail : Sep) (ht : SepOk trail) (stack : List Obj
 
 theorem pl_operands (xs : List SObj) (need : Bool) (T : Str) (fuel m : Nat) (stack : List Obj)
     (ops : List CS.Operation) (hv : ValidList need xs) (hnr : noRefList xs = true)
-    (hsz : ∀ x ∈ xs, x.size ≤ fuel) (hT : lastEndsRegular need xs = true → Terminated T) :
+    (hsz : ∀ x ∈ xs, x.size ≤ fuel) (hdp : sdepthList xs ≤ maxNestingDepth)
+    (hT : lastEndsRegular need xs = true → Terminated T) :
     CS.parseLoop (xs.length + m) fuel (renderList xs ++ T) stack ops =
       CS.parseLoop m fuel T (stack ++ valueList xs) ops := by
   induction xs generalizing need stack with
@@ -944,17 +1124,46 @@ theorem pl_operands (xs : List SObj) (need : Bool) (T : Str) (fuel m : Nat) (sta
     simp only [ValidList] at hv
     simp only [noRefList, Bool.and_eq_true] at hnr
     simp only [lastEndsRegular] at hT
+    simp only [sdepthList] at hdp
     have hrest : x.endsRegular = true → Terminated (renderList xs ++ T) := by
       intro he
       rw [he] at hv hT
       exact terminated_list xs hv.2 hnr.2 T hT
     obtain ⟨c, r, hs, _, hb⟩ := head_cases x need hv.1 hnr.1 _ hrest
-    have hx := op_rt x need _ fuel hv.1 hnr.1 (hsz x (by simp)) hrest
+    have hx := op_rt x need _ fuel 0 hv.1 hnr.1 (hsz x (by simp)) (by omega) hrest
     have e : (x :: xs).length + m = (xs.length + m) + 1 := by simp only [List.length_cons]; omega
     simp only [renderList, List.append_assoc, valueList]
     rw [e, pl_operand _ fuel _ stack ops c r _ _ hs hb hx,
-      ih x.endsRegular (stack ++ [x.value]) hv.2 hnr.2 (fun y hy => hsz y (by simp [hy])) hT]
+      ih x.endsRegular (stack ++ [x.value]) hv.2 hnr.2 (fun y hy => hsz y (by simp [hy])) (by omega) hT]
     simp
+
+/-- an operand list one of whose members nests too deep stops the whole `Parse` -/
+theorem pl_operands_deep (xs : List SObj) (need : Bool) (T : Str) (fuel m : Nat) (stack : List Obj)
+    (ops : List CS.Operation) (hv : ValidList need xs) (hnr : noRefList xs = true)
+    (hsz : ∀ x ∈ xs, x.size ≤ fuel) (hdeep : maxNestingDepth < sdepthList xs)
+    (hT : lastEndsRegular need xs = true → Terminated T) :
+    CS.parseLoop (xs.length + m) fuel (renderList xs ++ T) stack ops = none := by
+  induction xs generalizing need stack with
+  | nil => simp only [sdepthList] at hdeep; omega
+  | cons x xs ih =>
+    simp only [ValidList] at hv
+    simp only [noRefList, Bool.and_eq_true] at hnr
+    simp only [lastEndsRegular] at hT
+    simp only [sdepthList] at hdeep
+    have hrest : x.endsRegular = true → Terminated (renderList xs ++ T) := by
+      intro he
+      rw [he] at hv hT
+      exact terminated_list xs hv.2 hnr.2 T hT
+    obtain ⟨c, r, hs, _, hb⟩ := head_cases x need hv.1 hnr.1 _ hrest
+    have e : (x :: xs).length + m = (xs.length + m) + 1 := by simp only [List.length_cons]; omega
+    simp only [renderList, List.append_assoc]
+    by_cases hx : x.depth ≤ maxNestingDepth
+    · have hx' := op_rt x need _ fuel 0 hv.1 hnr.1 (hsz x (by simp)) (by omega) hrest
+      rw [e, pl_operand _ fuel _ stack ops c r _ _ hs hb hx']
+      exact ih x.endsRegular (stack ++ [x.value]) hv.2 hnr.2 (fun y hy => hsz y (by simp [hy])) (by omega) hT
+    · have hx' := op_deep x need _ fuel 0 hv.1 hnr.1 (hsz x (by simp)) (Nat.zero_le _) (by omega) hrest
+      rw [e]
+      exact pl_operand_err _ fuel _ stack ops c r hs hb hx'
 
 def countOps : List SOp → Nat
   | [] => 0
@@ -977,7 +1186,8 @@ theorem terminated_ops (os : List SOp) (trail : Sep) (hv : ValidOps true os) (ht
     exact terminated_list o.operands h1 h2 _ (fun h => terminated_sep o.pre h3 (h4 h) _)
 
 theorem pl_ops (os : List SOp) (need : Bool) (trail : Sep) (fuel m : Nat) (acc : List CS.Operation)
-    (hv : ValidOps need os) (ht : SepOk trail) (hsz : ∀ o ∈ os, ∀ x ∈ o.operands, x.size ≤ fuel) :
+    (hv : ValidOps need os) (ht : SepOk trail) (hsz : ∀ o ∈ os, ∀ x ∈ o.operands, x.size ≤ fuel)
+    (hdp : ∀ o ∈ os, sdepthList o.operands ≤ maxNestingDepth) :
     CS.parseLoop (countOps os + (m + 1)) fuel (renderOps os ++ renderSep trail) [] acc =
       some (acc ++ os.map fun o => { op := o.op, operands := valueList o.operands }) := by
   induction os generalizing need acc with
@@ -990,11 +1200,49 @@ theorem pl_ops (os : List SOp) (need : Bool) (trail : Sep) (fuel m : Nat) (acc :
     have e : countOps (o :: os) + (m + 1) = o.operands.length + ((countOps os + (m + 1)) + 1) := by
       simp only [countOps]; omega
     simp only [renderOps, SOp.render, List.append_assoc]
-    rw [e, pl_operands o.operands need _ fuel _ [] acc h1 h2 (hsz o (by simp))
+    rw [e, pl_operands o.operands need _ fuel _ [] acc h1 h2 (hsz o (by simp)) (hdp o (by simp))
         (fun h => terminated_sep o.pre h3 (h4 h) _),
       pl_operator _ fuel o.pre h3 o.op h5 _ hT,
-      ih true _ h6 (fun o' ho' => hsz o' (by simp [ho']))]
+      ih true _ h6 (fun o' ho' => hsz o' (by simp [ho'])) (fun o' ho' => hdp o' (by simp [ho']))]
     simp
+
+/-- a program one of whose operands nests too deep: `Parse` fails -/
+theorem pl_ops_deep (os : List SOp) (need : Bool) (trail : Sep) (fuel m : Nat) (acc : List CS.Operation)
+    (hv : ValidOps need os) (ht : SepOk trail) (hsz : ∀ o ∈ os, ∀ x ∈ o.operands, x.size ≤ fuel)
+    (hdeep : ∃ o ∈ os, maxNestingDepth < sdepthList o.operands) :
+    CS.parseLoop (countOps os + (m + 1)) fuel (renderOps os ++ renderSep trail) [] acc = none := by
+  induction os generalizing need acc with
+  | nil => obtain ⟨o, ho, _⟩ := hdeep; cases ho
+  | cons o os ih =>
+    simp only [ValidOps] at hv
+    obtain ⟨h1, h2, h3, h4, h5, h6⟩ := hv
+    have hT := terminated_ops os trail h6 ht
+    have e : countOps (o :: os) + (m + 1) = o.operands.length + ((countOps os + (m + 1)) + 1) := by
+      simp only [countOps]; omega
+    simp only [renderOps, SOp.render, List.append_assoc]
+    by_cases hx : sdepthList o.operands ≤ maxNestingDepth
+    · rw [e, pl_operands o.operands need _ fuel _ [] acc h1 h2 (hsz o (by simp)) hx
+          (fun h => terminated_sep o.pre h3 (h4 h) _),
+        pl_operator _ fuel o.pre h3 o.op h5 _ hT]
+      refine ih true _ h6 (fun o' ho' => hsz o' (by simp [ho'])) ?_
+      obtain ⟨o', ho', hd'⟩ := hdeep
+      rcases List.mem_cons.1 ho' with rfl | ho'
+      · omega
+      · exact ⟨o', ho', hd'⟩
+    · rw [e]
+      exact pl_operands_deep o.operands need _ fuel _ [] acc h1 h2 (hsz o (by simp)) (by omega)
+        (fun h => terminated_sep o.pre h3 (h4 h) _)
+
+/-- the operand lists of a valid program are valid lists -/
+theorem validOps_mem (os : List SOp) (need : Bool) (hv : ValidOps need os) (o : SOp) (ho : o ∈ os) :
+    ∃ n, ValidList n o.operands := by
+  induction os generalizing need with
+  | nil => cases ho
+  | cons p ps ih =>
+    simp only [ValidOps] at hv
+    rcases List.mem_cons.1 ho with rfl | ho
+    · exact ⟨need, hv.1⟩
+    · exact ih true hv.2.2.2.2.2 ho
 
 /-! ### fuel and iteration budget -/
 
@@ -1071,15 +1319,28 @@ theorem countOps_le (os : List SOp) (need : Bool) (hv : ValidOps need os) :
 
 end CSL
 
-/-- one operand, any legal spelling, any depth -/
-theorem cs_operand_roundtrip (so : SObj) (need : Bool) (rest : Str) (f : Nat)
+/-- one operand, any legal spelling, nested at most as deep as `p.depth` leaves room for -/
+theorem cs_operand_roundtrip (so : SObj) (need : Bool) (rest : Str) (f d : Nat)
     (hv : so.Valid need) (hnr : so.noRef = true) (hf : so.size ≤ f)
+    (hd : d + so.value.depth ≤ maxNestingDepth)
     (hrest : so.endsRegular = true → Terminated rest) :
-    CS.parseOperand f (so.render ++ rest) = some (so.value, rest) :=
-  CSL.op_rt so need rest f hv hnr hf hrest
+    CS.parseOperand f d (so.render ++ rest) = some (so.value, rest) := by
+  rw [value_depth so need hv] at hd
+  exact CSL.op_rt so need rest f d hv hnr hf hd hrest
 
-/-- a whole program: operands are grouped with the operator that follows them -/
-theorem cs_roundtrip (ops : List SOp) (trail : Sep) (hv : ValidOps false ops) (ht : SepOk trail) :
+/-- … and one that needs more open containers than the limit allows is an error -/
+theorem cs_operand_too_deep (so : SObj) (need : Bool) (rest : Str) (f d : Nat)
+    (hv : so.Valid need) (hnr : so.noRef = true) (hf : so.size ≤ f)
+    (hd : d ≤ maxNestingDepth) (hdeep : maxNestingDepth < d + so.value.depth)
+    (hrest : so.endsRegular = true → Terminated rest) :
+    CS.parseOperand f d (so.render ++ rest) = none := by
+  rw [value_depth so need hv] at hdeep
+  exact CSL.op_deep so need rest f d hv hnr hf hd hdeep hrest
+
+/-- a whole program whose operands nest at most `maxNestingDepth` deep: operands are grouped with
+the operator that follows them -/
+theorem cs_roundtrip (ops : List SOp) (trail : Sep) (hv : ValidOps false ops) (ht : SepOk trail)
+    (hd : ∀ o ∈ ops, Obj.depthList (valueList o.operands) ≤ maxNestingDepth) :
     CS.csParse (renderOps ops ++ renderSep trail) =
       some (ops.map fun o => { op := o.op, operands := valueList o.operands }) := by
   have hc := CSL.countOps_le ops false hv
@@ -1087,10 +1348,43 @@ theorem cs_roundtrip (ops : List SOp) (trail : Sep) (hv : ValidOps false ops) (h
   obtain ⟨m, hm⟩ : ∃ m, (renderOps ops ++ renderSep trail).length + 2 = CSL.countOps ops + (m + 1) :=
     ⟨(renderOps ops ++ renderSep trail).length + 1 - CSL.countOps ops, by
       simp only [List.length_append]; omega⟩
-  rw [hm, CSL.pl_ops ops false trail _ m [] hv ht ?_]
+  rw [hm, CSL.pl_ops ops false trail _ m [] hv ht ?_ ?_]
   · simp
   · intro o ho x hx
     have := CSL.mem_ops_size ops o ho x hx
     simp only [List.length_append]; omega
+  · intro o ho
+    obtain ⟨n, hn⟩ := CSL.validOps_mem ops false hv o ho
+    rw [← valueList_depth o.operands n hn]
+    exact hd o ho
+
+/-- a whole program one of whose operands nests deeper than `maxNestingDepth`: `Parse` fails -/
+theorem cs_too_deep (ops : List SOp) (trail : Sep) (hv : ValidOps false ops) (ht : SepOk trail)
+    (hd : ∃ o ∈ ops, maxNestingDepth < Obj.depthList (valueList o.operands)) :
+    CS.csParse (renderOps ops ++ renderSep trail) = none := by
+  have hc := CSL.countOps_le ops false hv
+  unfold CS.csParse CS.fuelFor
+  obtain ⟨m, hm⟩ : ∃ m, (renderOps ops ++ renderSep trail).length + 2 = CSL.countOps ops + (m + 1) :=
+    ⟨(renderOps ops ++ renderSep trail).length + 1 - CSL.countOps ops, by
+      simp only [List.length_append]; omega⟩
+  rw [hm]
+  refine CSL.pl_ops_deep ops false trail _ m [] hv ht ?_ ?_
+  · intro o ho x hx
+    have := CSL.mem_ops_size ops o ho x hx
+    simp only [List.length_append]; omega
+  · obtain ⟨o, ho, hdo⟩ := hd
+    obtain ⟨n, hn⟩ := CSL.validOps_mem ops false hv o ho
+    rw [valueList_depth o.operands n hn] at hdo
+    exact ⟨o, ho, hdo⟩
+
+theorem nestArr_noRef (k : Nat) (so : SObj) (h : so.noRef = true) : (nestArr k so).noRef = true := by
+  induction k with
+  | zero => exact h
+  | succ k ih => simp [nestArr, SObj.noRef, noRefList, ih]
+
+theorem nestDict_noRef (k : Nat) (so : SObj) (h : so.noRef = true) : (nestDict k so).noRef = true := by
+  induction k with
+  | zero => exact h
+  | succ k ih => simp [nestDict, SObj.noRef, noRefList, ih]
 
 end Tabula.Pdf
